@@ -36,6 +36,15 @@ theorem definitions_walked_on_copies :
     ∧ (definitionWalks.map (·.1)).contains "defaultValidator.validateDefaultValueValidAgainstSchema" = true
     ∧ (definitionWalks.map (·.1)).contains "exampleValidator.validateExampleValueValidAgainstSchema" = true := by decide
 
+/-- `(*SpecValidator).Validate` builds the Swagger-schema validator over a *copy* of the schema it was constructed with: building
+    it expands the schema's `$ref` in place, and on the caller's object (a document's own copy of the Swagger schema) every further
+    validation expanded the remaining circular references one level more — the schema grew with each call and, depending on map
+    order inside the expander, without bound (fixed defect C07-document-schema-grows-on-revalidation) -/
+theorem swagger_schema_validated_on_a_copy :
+    (schemaValidatorArgs.filter (fun a => a.1 == "SpecValidator.Validate")) = [("SpecValidator.Validate", "scratchSchema(s.schema)")]
+    ∧ (schemaValidatorArgs.filter (fun a => a.1 == "SpecValidator.validateParameters")) = [("SpecValidator.validateParameters", "&paramSchema")] := by
+  decide
+
 /-- non-vacuity: the table is not empty and does contain the scratch-copy writes -/
 example : inputWrites.length > 20 := by decide
 example : (inputWrites.filter (fun w => w.target == "local-borrowed")).length = 2 := by decide
